@@ -4,7 +4,9 @@
 //! process wide).  The harness owns the schedule: wakes (from other threads), tty input and
 //! signals are placed at named points inside `UnixTerminal::poll` through the verif hook, so
 //! "a wake exactly between select returning and the waker pipe being read" is a generated
-//! value, not luck.  After the rounds the terminal object is released through a generated
+//! value, not luck.  Backlog rounds add the history "a burst was read by one poll, only part of
+//! its events was taken, then the window changes": arrival order across sources is judged
+//! there, and only there, because the construction fixes it.  After the rounds the terminal object is released through a generated
 //! exit path and the tty is inspected.
 
 use crate::engine::*;
@@ -74,6 +76,32 @@ pub struct Round {
     /// even though the previous request has just been delivered
     #[serde(default)]
     pub wake_again: bool,
+    /// the round is a "backlog" round instead: the peer types a burst, the application takes
+    /// only some of its key events, then the window changes (`what`, `pending_output`,
+    /// `hold_stall`, `position`, `wake_again` are not used; `place` says where the signal is
+    /// raised, `timeout` is the timeout of the polls around it)
+    #[serde(default)]
+    pub backlog: Option<Backlog>,
+}
+
+/// Input that was read from the tty (and decoded) by a poll that has returned, part of it not
+/// yet taken by the application, when an event of another source -- a window-size signal --
+/// arrives: what was received earlier must still be delivered first.
+#[derive(Clone, Debug, Serialize, Deserialize)]
+pub struct Backlog {
+    /// characters the peer types as ONE burst (one write on the master side), at least 3
+    pub burst: String,
+    /// how many of their key events the application takes (one poll each) before the window
+    /// changes; at least one stays queued inside the terminal object
+    pub take: u8,
+    /// bytes of output queued before the first poll (the burst then arrives while output is
+    /// pending; 0 = none)
+    #[serde(default)]
+    pub output_first: usize,
+    /// bytes of output the application queues after those polls and before the window-size
+    /// signal ("draws a frame"; 0 = none): the signal arrives while output is pending
+    #[serde(default)]
+    pub output: usize,
 }
 
 #[derive(Clone, Debug, Serialize, Deserialize)]
@@ -193,6 +221,243 @@ fn final_mode(received: &[u8], mode: &str) -> Option<bool> {
     }
 }
 
+/// bytes waiting in the tty's input buffer (typed by the peer, not yet read by anybody),
+/// observed through the harness's own handle on the slave side
+fn tty_input_queued(pty: &Pty) -> Option<usize> {
+    use std::os::fd::AsRawFd;
+    let mut n: libc::c_int = 0;
+    let r = unsafe { libc::ioctl(pty.slave.as_raw_fd(), libc::FIONREAD, &mut n) };
+    if r == 0 && n >= 0 { Some(n as usize) } else { None }
+}
+
+fn typed_chars(events: &[TerminalEvent]) -> String {
+    events
+        .iter()
+        .filter_map(|e| match e {
+            TerminalEvent::Key(k) if k.mode.is_empty() => match k.name {
+                KeyName::Char(c) if c != '~' => Some(c),
+                _ => None,
+            },
+            _ => None,
+        })
+        .collect()
+}
+
+/// A backlog round (see `Backlog`).  Returns whether the signal was raised strictly inside a poll.
+///
+/// Order between the window-size signal and typed characters is demanded only where it is fixed
+/// by construction: the whole burst was in the tty's input buffer before the first poll
+/// (FIONREAD), that poll returned the first character's key event, and the input buffer was
+/// empty afterwards -- so every character of the burst had been read by a poll that returned
+/// before the signal was raised.  Anything else (bytes that travel slowly, a read that takes
+/// less than the burst) makes the round an ordinary input + signal round without order verdict.
+fn backlog_round(
+    ri: usize,
+    round: &Round,
+    bl: &Backlog,
+    case: &Case,
+    sess: &Session,
+    term: &mut SystemTerminal,
+    labels: &mut Vec<&'static str>,
+) -> Result<bool, Fail> {
+    use std::os::fd::AsRawFd;
+    let poll_err = |ri: usize, e: Error| Fail::new("session/poll-error", format!("round {ri} (backlog): poll failed: {e:?}"));
+    let chars: Vec<char> = bl.burst.chars().collect();
+    if chars.len() < 2 {
+        labels.push("backlog-round-skipped");
+        return Ok(false);
+    }
+    let take = (bl.take.max(1) as usize).min(chars.len() - 1);
+    let timeout = match round.timeout {
+        Timeout::Zero => Duration::ZERO,
+        // (a poll without timeout adds nothing here: every poll of this round has something
+        // to return for)
+        Timeout::Ms50 | Timeout::Infinite => Duration::from_millis(50),
+    };
+    labels.push("backlog-round");
+    // whatever the previous rounds left behind is theirs
+    for _ in 0..64 {
+        match term.poll(Some(Duration::ZERO)) {
+            Ok(Some(_)) => {}
+            Ok(None) => break,
+            Err(e) => return Err(poll_err(ri, e)),
+        }
+    }
+    let clean = tty_input_queued(&sess.pty) == Some(0);
+    if bl.output_first > 0 {
+        term.write_all(&vec![b','; bl.output_first]).map_err(|e| Fail::new("session/write-error", format!("{e:?}")))?;
+        labels.push("output-pending");
+    }
+    // the burst: one write; wait (bounded) until all of it is in the tty's input buffer
+    let bytes = bl.burst.as_bytes();
+    let written = unsafe { libc::write(sess.pty.master.as_raw_fd(), bytes.as_ptr() as *const libc::c_void, bytes.len()) };
+    if written != bytes.len() as isize {
+        return Err(inc(format!("typing the burst: write returned {written}")));
+    }
+    let t0 = Instant::now();
+    let mut arrived = false;
+    while clean && t0.elapsed() < Duration::from_secs(2) {
+        if tty_input_queued(&sess.pty) == Some(bytes.len()) {
+            arrived = true;
+            break;
+        }
+        std::thread::sleep(Duration::from_micros(100));
+    }
+    let mut events: Vec<TerminalEvent> = Vec::new();
+    // first poll: reads the burst, delivers its first key
+    match term.poll(Some(timeout)) {
+        Ok(Some(ev)) => events.push(ev),
+        Ok(None) => {}
+        Err(e) => return Err(poll_err(ri, e)),
+    }
+    let first_is_key = matches!(events.first(), Some(TerminalEvent::Key(k)) if k.mode.is_empty() && k.name == KeyName::Char(chars[0]));
+    // all of the burst has been taken out of the tty by that poll
+    let established = arrived && first_is_key && tty_input_queued(&sess.pty) == Some(0);
+    // the application takes some more of the keys
+    for _ in 1..take {
+        match term.poll(Some(Duration::ZERO)) {
+            Ok(Some(ev)) => events.push(ev),
+            Ok(None) => {}
+            Err(e) => return Err(poll_err(ri, e)),
+        }
+    }
+    // ... and draws
+    if bl.output > 0 {
+        term.write_all(&vec![b';'; bl.output]).map_err(|e| Fail::new("session/write-error", format!("{e:?}")))?;
+        labels.push("output-pending");
+    }
+    let output_pending = bl.output > 0 || term.frames_pending() > 0;
+    // the window changes: before the next poll or at a point inside it
+    let before_signal = events.len();
+    let fired = Rc::new(Cell::new(false));
+    let _guard = HookGuard;
+    match round.place {
+        Place::BeforePoll => {
+            unsafe {
+                libc::raise(libc::SIGWINCH);
+            }
+            fired.set(true);
+        }
+        Place::At { point, iter } => {
+            let target = POINTS[point as usize % POINTS.len()];
+            let iters = Rc::new(Cell::new(0u32));
+            let fired2 = fired.clone();
+            unix_verif_hooks::set_point_hook(Some(Box::new(move |p| {
+                if p == Point::LoopStart {
+                    iters.set(iters.get() + 1);
+                }
+                if !fired2.get() && p == target && iters.get() == iter as u32 + 1 {
+                    fired2.set(true);
+                    unsafe {
+                        libc::raise(libc::SIGWINCH);
+                    }
+                }
+            })));
+        }
+    }
+    let r = term.poll(Some(timeout));
+    unix_verif_hooks::set_point_hook(None);
+    let inside = matches!(round.place, Place::At { .. }) && fired.get();
+    match r {
+        Ok(Some(ev)) => events.push(ev),
+        Ok(None) => {}
+        Err(e) => return Err(poll_err(ri, e)),
+    }
+    if !fired.get() {
+        // the point was not reached (nothing made that poll enter its loop that far)
+        unsafe {
+            libc::raise(libc::SIGWINCH);
+        }
+        fired.set(true);
+    }
+    // drain
+    let t0 = Instant::now();
+    loop {
+        match term.poll(Some(Duration::ZERO)) {
+            Ok(Some(ev)) => events.push(ev),
+            Ok(None) => {
+                if term.frames_pending() == 0 || t0.elapsed() > Duration::from_secs(10) {
+                    break;
+                }
+            }
+            Err(e) => return Err(poll_err(ri, e)),
+        }
+    }
+    // bounded 2 s for what travels through the pty: typed characters that were slow, and (size
+    // taken from escape sequences) the size request and its answer
+    let t1 = Instant::now();
+    while t1.elapsed() < Duration::from_secs(2)
+        && (typed_chars(&events).chars().count() < chars.len() || !events.iter().any(|e| matches!(e, TerminalEvent::Resize(_))))
+    {
+        match term.poll(Some(Duration::from_millis(10))) {
+            Ok(Some(ev)) => events.push(ev),
+            Ok(None) => {}
+            Err(e) => return Err(poll_err(ri, e)),
+        }
+    }
+    while let Ok(Some(ev)) = term.poll(Some(Duration::ZERO)) {
+        events.push(ev);
+    }
+    if case.size_by_escape {
+        labels.push("winch-answered-by-escape-sequence");
+    }
+    let typed = typed_chars(&events);
+    ensure!(
+        typed == bl.burst,
+        "input/lost-or-reordered",
+        "round {ri} ({:?}): the peer typed {:?} as one burst but the events carry {:?}; events {:?}",
+        round,
+        bl.burst,
+        typed,
+        events
+    );
+    ensure!(
+        events.iter().any(|e| matches!(e, TerminalEvent::Resize(_))),
+        "signal/winch-lost",
+        "round {ri} ({:?}): SIGWINCH raised but no Resize event was delivered; events {:?}",
+        round,
+        events
+    );
+    ensure!(
+        !events.iter().any(|e| matches!(e, TerminalEvent::Wake)),
+        "wake/spurious",
+        "round {ri}: Wake event without a wake call"
+    );
+    if !established {
+        labels.push("backlog-not-established");
+        return Ok(inside);
+    }
+    // arrival order: every character of the burst was received (read from the tty by a poll that
+    // had returned) before the signal was raised, so their key events precede the Resize event
+    let last_key = events
+        .iter()
+        .rposition(|e| matches!(e, TerminalEvent::Key(k) if k.mode.is_empty() && matches!(k.name, KeyName::Char(c) if c != '~')));
+    let first_resize = events.iter().position(|e| matches!(e, TerminalEvent::Resize(_)));
+    if let (Some(k), Some(r)) = (last_key, first_resize) {
+        if r < before_signal {
+            // a Resize delivered before the signal of this round was raised is not of this round
+            labels.push("backlog-not-established");
+            return Ok(inside);
+        }
+        ensure!(
+            r > k,
+            "order/winch-overtakes-input-received-earlier",
+            "round {ri} ({:?}): the peer typed {:?} as one burst; all {} bytes were in the tty's input buffer before the first poll and none was left after it, so that poll had read them all; it delivered the first key, the application took {take} key event(s){}, and only then SIGWINCH was raised ({}). The Resize event was delivered before key event(s) of characters received before the signal: events in delivery order {:?} (the first {before_signal} were delivered before the signal)",
+            round,
+            bl.burst,
+            bytes.len(),
+            if output_pending { " and queued output" } else { "" },
+            if inside { "inside the next poll, through the point hook" } else { "between two polls" },
+            events
+        );
+    }
+    labels.push("winch-behind-input-still-queued");
+    if output_pending {
+        labels.push("winch-behind-input-still-queued-with-output-pending");
+    }
+    Ok(inside)
+}
+
 fn run_session(case: &Case) -> Result<(Pass, bool), Fail> {
     let pty = Pty::open().map_err(|e| inc(format!("cannot open pty: {e}")))?;
     let before = pty.termios().map_err(|e| inc(format!("tcgetattr: {e}")))?;
@@ -221,6 +486,12 @@ fn run_session(case: &Case) -> Result<(Pass, bool), Fail> {
     }
 
     for (ri, round) in case.rounds.iter().enumerate() {
+        if let Some(bl) = &round.backlog {
+            if backlog_round(ri, round, bl, case, &sess, &mut term, &mut labels)? {
+                inside_poll = true;
+            }
+            continue;
+        }
         // `WinchTwice` has a meaning of its own only where SIGWINCH is answered by asking the
         // terminal; there the first signal precedes a poll with a finite timeout, nothing else
         // is going on, and the second signal is placed by the hook below
@@ -234,6 +505,7 @@ fn run_session(case: &Case) -> Result<(Pass, bool), Fail> {
                 hold_stall: false,
                 position: None,
                 wake_again: false,
+                backlog: None,
             },
             (What::WinchTwice, false) => Round { what: What::Winch, ..round.clone() },
             _ => round.clone(),
@@ -965,7 +1237,8 @@ fn finish(labels: Vec<&'static str>, inside_poll: bool, master_closed: bool) -> 
             || labels.contains(&"output-pending")
             || labels.contains(&"termination-signal-during-release")
             || labels.contains(&"drop-with-chunk-in-flight")
-            || labels.contains(&"position-call"),
+            || labels.contains(&"position-call")
+            || labels.contains(&"winch-behind-input-still-queued"),
     )
         .label_if(inside_poll, "placed-inside-poll")
         .label_if(master_closed, "master-closed-first");
@@ -1012,7 +1285,29 @@ impl Property for C17 {
             )
                 .prop_map(|(delay_ms, at, post)| PosRound { delay_ms, at, post }),
         );
-        let round = (what, place, timeout, pending, any::<bool>(), pos_round, proptest::bool::weighted(0.3)).prop_map(|(what, place, timeout, pending_output, hold, position, wake_again)| {
+        // backlog rounds: a burst of 3-8 characters, the application takes 1-3 of its key events
+        // (always leaving at least one queued), optionally output before the first poll and --
+        // three times out of four -- output queued ("a frame drawn") before the window changes
+        let backlog = proptest::option::weighted(
+            0.12,
+            (
+                "[a-z0-9]{3,8}",
+                0u8..3,
+                prop_oneof![3 => Just(0usize), 1 => 1usize..3000],
+                prop_oneof![1 => Just(0usize), 2 => 1usize..2000, 1 => 5000usize..40000],
+            )
+                .prop_map(|(burst, sel, output_first, output)| {
+                    let n = burst.chars().count();
+                    let take = 1 + sel % (n as u8 - 1).min(3);
+                    Backlog { burst, take, output_first, output }
+                }),
+        );
+        let round = (what, place, timeout, pending, any::<bool>(), pos_round, proptest::bool::weighted(0.3), backlog).prop_map(|(what, place, timeout, pending_output, hold, position, wake_again, backlog)| {
+            if backlog.is_some() {
+                // the fields a backlog round does not use are given their neutral values
+                let timeout = if timeout == Timeout::Infinite { Timeout::Ms50 } else { timeout };
+                return Round { what: What::Winch, place, timeout, pending_output: 0, hold_stall: false, position: None, wake_again: false, backlog };
+            }
             // position(): the requests must reach a terminal that reads; typed characters keep
             // their order of arrival only if those of the action are typed before the request
             let (place, timeout, pending_output) = match &position {
@@ -1035,7 +1330,7 @@ impl Property for C17 {
                 (_, p) => p,
             };
             let hold_stall = hold && pending_output > 4096 && timeout != Timeout::Infinite;
-            Round { what, place, timeout, pending_output, hold_stall, position, wake_again }
+            Round { what, place, timeout, pending_output, hold_stall, position, wake_again, backlog: None }
         });
         let exit = prop_oneof![
             3 => Just(Exit::Drop),
@@ -1073,14 +1368,14 @@ impl Property for C17 {
     }
 
     fn rule(&self) -> String {
-        "session = real SystemTerminal on a pseudo-terminal (one per worker process) with a scripted peer; 0-4 rounds, each: {1-3 concurrent wake calls from other threads | the peer types 1-6 characters | raise(SIGWINCH)} placed before the poll or at one of 7 named points (loop start, before/after select, before signal processing, before the waker read, before the tty read, loop end) of loop iteration 0-2 of a poll with timeout 0 / 50 ms / none, optionally with 1-40000 bytes of output pending (above 4096 the peer is stalled, for 30 ms or -- finite timeouts, half of those rounds -- until the round's events have been delivered, which zero-timeout polls must achieve within 2 s although the output stays pending); then drained with zero-timeout polls. One round in ten calls Terminal::position() instead of poll: the peer answers the cursor position request after 0 / 1-59 / 200-399 / 1200 ms, optionally typing 1-3 characters in the same write as its answer; nothing that arrived meanwhile may be lost or reordered. In 30% of the wake rounds one more wake request is issued as soon as the poll under test has returned, before any other poll is entered; it must produce a further Wake event. A `WinchTwice` round (escape-sequence size sessions) raises SIGWINCH, polls with 50 ms, and raises it again through the hook right after the terminal has answered the size request and before the terminal object has read the answer: two Resize events must arrive within 2 s. Oracles: >=1 and <= #calls Wake events for wake rounds, typed characters delivered in order, >=1 Resize per SIGWINCH round, no spurious Wake. Exit path: drop | drop with pending output | Terminal::run handler error/quit at step k | run_render handler error at step k | SIGTERM/SIGINT/SIGQUIT (must surface as Error::Quit) | SIGTERM/SIGINT/SIGQUIT raised at one of the 7 points of the first poll iteration inside drop | drop with the front chunk of the output queue partly transmitted (peer stalled, 20-200 kB written and polled, 1-3000 more bytes queued, peer resumes, drop) | an application that switched mouse reporting on and the cursor off, wrote a frame, queued its own cursor-visible/mouse-off commands behind it (optionally polled once) and is dropped: the last set/reset the tty received for modes 1000, 1003, 1006 must be reset and for mode 25 set | master closed first; one session in four runs on a pty whose ioctl reports no pixel size while the peer answers CSI 18 t CSI 14 t, so the terminal object takes its size from escape sequences and answers SIGWINCH by asking the terminal (the Resize event then gets the same bounded 2 s as typed characters); afterwards tcgetattr on the slave must equal the snapshot taken before open and (master still open) the bytes received after the last application output must contain ESC[?1003l, ESC[?1006l, ESC[?1000l and ESC[?25h. non-trivial = a trigger placed strictly inside a poll or inside the release, or output pending during a round or at release".into()
+        "session = real SystemTerminal on a pseudo-terminal (one per worker process) with a scripted peer; 0-4 rounds, each: {1-3 concurrent wake calls from other threads | the peer types 1-6 characters | raise(SIGWINCH)} placed before the poll or at one of 7 named points (loop start, before/after select, before signal processing, before the waker read, before the tty read, loop end) of loop iteration 0-2 of a poll with timeout 0 / 50 ms / none, optionally with 1-40000 bytes of output pending (above 4096 the peer is stalled, for 30 ms or -- finite timeouts, half of those rounds -- until the round's events have been delivered, which zero-timeout polls must achieve within 2 s although the output stays pending); then drained with zero-timeout polls. One round in ten calls Terminal::position() instead of poll: the peer answers the cursor position request after 0 / 1-59 / 200-399 / 1200 ms, optionally typing 1-3 characters in the same write as its answer; nothing that arrived meanwhile may be lost or reordered. In 30% of the wake rounds one more wake request is issued as soon as the poll under test has returned, before any other poll is entered; it must produce a further Wake event. A `WinchTwice` round (escape-sequence size sessions) raises SIGWINCH, polls with 50 ms, and raises it again through the hook right after the terminal has answered the size request and before the terminal object has read the answer: two Resize events must arrive within 2 s. One round in eight is a backlog round: the peer types 3-8 characters as one burst (one write; the harness waits, bounded, until FIONREAD on its own slave handle shows the whole burst in the tty's input buffer), optionally 1-2999 bytes of output are queued first, one poll (timeout 0 / 50 ms) delivers the first key -- its read has taken the whole burst out of the tty, checked with FIONREAD = 0 afterwards, so the other keys stay queued inside the terminal object --, the application takes 0-2 more keys with one poll each (at least one stays queued), three times out of four queues 1-1999 or 5000-39999 bytes of output (draws a frame), then SIGWINCH is raised before the next poll or at one of the 7 points of its loop iteration 0-2, and everything is drained: the burst in order, >=1 Resize, and -- only where the construction above was confirmed, otherwise the round counts as `backlog-not-established` and no order is judged -- every key of the burst before the Resize event, because those characters had been received by a poll that returned before the signal was raised. Oracles: >=1 and <= #calls Wake events for wake rounds, typed characters delivered in order, >=1 Resize per SIGWINCH round, no spurious Wake, Resize never ahead of input received before the signal (backlog rounds). Exit path: drop | drop with pending output | Terminal::run handler error/quit at step k | run_render handler error at step k | SIGTERM/SIGINT/SIGQUIT (must surface as Error::Quit) | SIGTERM/SIGINT/SIGQUIT raised at one of the 7 points of the first poll iteration inside drop | drop with the front chunk of the output queue partly transmitted (peer stalled, 20-200 kB written and polled, 1-3000 more bytes queued, peer resumes, drop) | an application that switched mouse reporting on and the cursor off, wrote a frame, queued its own cursor-visible/mouse-off commands behind it (optionally polled once) and is dropped: the last set/reset the tty received for modes 1000, 1003, 1006 must be reset and for mode 25 set | master closed first; one session in four runs on a pty whose ioctl reports no pixel size while the peer answers CSI 18 t CSI 14 t, so the terminal object takes its size from escape sequences and answers SIGWINCH by asking the terminal (the Resize event then gets the same bounded 2 s as typed characters); afterwards tcgetattr on the slave must equal the snapshot taken before open and (master still open) the bytes received after the last application output must contain ESC[?1003l, ESC[?1006l, ESC[?1000l and ESC[?25h. non-trivial = a trigger placed strictly inside a poll or inside the release, or output pending during a round or at release, or a window-size signal raised while input received earlier was still queued".into()
     }
 
     fn assumptions(&self) -> Vec<String> {
         vec![
             "interleavings are placed through the verif hook at 7 named points of the poll loop and by joining the waking threads inside the hook; kernel-side races inside select(2) itself are not enumerable".into(),
             "bounded time: after the wake/signal/typing calls have returned their bytes are already in the respective pipes, so zero-timeout polls must deliver them; poll(None) is guarded by a rescue thread that types a character after 3 s — a poll that had to be ended that way although the wake/typing/signal calls had completed is reported (the harness owns the schedule, so this is reproducible); a rescue without a completed trigger is inconclusive".into(),
-            "only per-source order is checked (characters typed by the peer); select gives no order between different sources".into(),
+            "order is checked per source (characters typed by the peer); between sources select gives no order, so order between typed characters and a window-size signal is judged only in backlog rounds, where it is fixed by construction: all characters were in the tty's input buffer before a poll (FIONREAD on a second handle of the slave), none was left after that poll returned (nobody else reads the slave), and the signal was raised only afterwards -- arrival order then puts their key events before the Resize event; no order is demanded between a signal and bytes not yet read, nor between wake requests and anything else (the statement names input bytes and window-size signals); a burst that does not show up in the input buffer within 2 s, a first poll that does not deliver the first key, or a read that leaves bytes behind makes the round an ordinary input + signal round (label backlog-not-established), never a violation".into(),
             "the peer answers the library's DA1 sync requests, so dispose() does not wait for its 1 s timeout".into(),
         ]
     }
